@@ -334,6 +334,13 @@ def check_basic(case):
             okr, resr = _call(out, '%s %s' % (name, lab), f, dict(op='join', variant=name[:24], **sig))
             if okr:
                 check_join(out, '%s %s' % (name, lab), resr, lrows, rrows, kf, kf, lnames, None, dict(op='join', variant=name[:24], **sig))
+        # a computed key (callable) in FIRST position next to a plain name: every key value must come out under its own key column
+        out.sub()
+        lc = [lambda k: k] + lnames[1:]
+        okr, resr = _call(out, 'x.join(y, [lambda k: k, %s], names) %s' % (', '.join(map(repr, lnames[1:])), lab), lambda: x.join(y, lc, lnames), dict(op='join', variant='callable-first', **sig))
+        if okr:
+            check_join(out, 'x.join(y, [lambda k: k, %s], names) %s' % (', '.join(map(repr, lnames[1:])), lab), resr, lrows, rrows, kf, kf, lnames, None,
+                       dict(op='join', variant='callable-first', **sig))
         out.sub()
         okr, resr = _call(out, 'x.xor(y stored in reverse column order, names) %s' % lab, lambda: x.xor(yr, lnames), dict(op='xor', variant='reversed', **sig))
         if okr:
@@ -535,6 +542,22 @@ def check_modes(case):
         ok, res = _call(out, "x.join(y, 'k', mode=%r) %s" % (mode, lab), lambda: x.join(y, 'k', mode=m), sig)
         if ok:
             check_join(out, "x.join(y, 'k', mode=%r) %s" % (mode, lab), res, lrows, rrows, kf, kf, ['k'], mode, sig)
+    # ---- no key and no common column: the full cross product, whatever the cells hold (a tuple as long as the other table, a one-element list, a callable)
+    if len(lk) <= 3 and len(rk) <= 2:
+        out.sub(2)
+        fcell = len                                                    # a callable is a cell like any other
+        xc = dictable(dict(v=list(range(len(lk))), p=[JL[i] for i in range(len(lk))]))
+        QR = [('t', 2), ['u'], fcell]
+        yc = dictable(dict(w=list(range(len(rk))), q=[QR[i] for i in range(len(rk))]))
+        lr = [dict(v=i, p=JL[i]) for i in range(len(lk))]
+        rr = [dict(w=i, q=QR[i]) for i in range(len(rk))]
+        nokey = lambda row: ()
+        for name, f in (('x.join(y, [], [])', lambda: xc.join(yc, [], [])), ('x * y', lambda: xc * yc)):
+            sigc = dict(op='cross', spelling=name, cells='non-scalar')
+            labc = '%s with x.p=%s, y.q=%s' % (name, JL[:len(lk)], [('len' if c is fcell else c) for c in QR[:len(rk)]])
+            ok, res = _call(out, labc, f, sigc)
+            if ok:
+                check_join(out, labc, res, lr, rr, nokey, nokey, [], None, sigc, jcol='no-shared-column')
     if not (_unchanged(x, sx) and _unchanged(y, sy)):
         out.viol('operand-mutated', '%s: an operand changed' % lab, op='join', suite='modes')
     out.cls('group-2x2' if big else 'group-1xn' if any(k[1] == 2 or k[0] == 2 for k in groups) else 'one-to-one' if groups.get((1, 1)) else 'no-match')
